@@ -26,6 +26,13 @@ class Body:
         for name, pl in j["dbg"]:
             if not pl[1] and pl[0] not in self.names:
                 self.names[pl[0]] = name
+        # closures: names of captured variables by upvar index (`_1.N` / `(*_1).N`)
+        self.upvars = {}
+        for name, pl in j["dbg"]:
+            if pl[0] == 1 and pl[1]:
+                pr = [e for e in pl[1] if e != "*"]
+                if pr and isinstance(pr[0], dict) and "f" in pr[0] and pr[0]["f"] not in self.upvars:
+                    self.upvars[pr[0]["f"]] = name
         self._succ = None
         self._pred = None
 
